@@ -11,7 +11,7 @@ from lib import vf
 BASE = """SPECIFICATION %(spec)s
 CONSTANTS
   Svc = {"A", "B"}
-  Dst = {"http://u1:80/", "http://u2:80/"}
+  Dst = %(dst)s
   Srcs <- %(srcs)s
   W <- %(w)s
   TagSeqs <- MCTagSeqs
@@ -26,7 +26,11 @@ INV = "INVARIANTS TypeOK NoEmptyRoute AddIdempotent AddAccumulates DelExact Weig
 
 def cfg(spec, srcs, opts, n, view=True, inv=False):
     return BASE % dict(spec=spec, srcs=srcs, opts=opts, n=n, view="VIEW View" if view else "",
-                       inv=INV if inv else "", w="MCW" if srcs == "MCSrcsSmall" else "MCWFull")
+                       inv=INV if inv else "", w="MCW" if srcs == "MCSrcsSmall" else "MCWFull",
+                       dst={"MCSrcsSmall": '{"http://u1:80/", "http://u2:80/"}',
+                            # destinations that differ only in the query string / user info are different targets
+                            "MCSrcsMid": '{"http://u1:80/", "http://u1:80/?v=2"}',
+                            "MCSrcsFull": '{"http://u1:80/", "http://u1:80/?v=2", "http://x@u1:80/"}'}[srcs])
 
 
 def run_harness(ctx, cases, what, env=None, timeout=2400):
@@ -42,7 +46,7 @@ def run_harness(ctx, cases, what, env=None, timeout=2400):
 def run(ctx):
     ctx.level = "model_checking"
     ctx.assumptions += [
-        "universe: services {A,B}, sources {/, h.com/, H.com/, h.com/a, H.COM/a, h.com/A, :1234}, 2 destinations, weights {dynamic, 0.2, 0.5, -0.5 (= dynamic)}, tag lists {none, t1, t1+t2}, opts {none, strip=/x}",
+        "universe: services {A,B}, sources {/, h.com/, H.com/, h.com, H.COM (no slash), h.com/a, H.COM/a, h.com/A, :1234}, 2-3 destinations (some differing only in query string / user info), weights {dynamic, 0.2, 0.5, -0.5 (= dynamic)}, tag lists {none, t1, t1+t2}, opts {none, strip=/x}",
         "fixed weights compared with exact rationals to 1e-9; a zero-weight target omitted by the rendering is not a difference (unobservable by lookups)",
     ]
     # 1. the language properties on the model
